@@ -86,6 +86,8 @@ static const Scenario kScenarios[] = {
             "a.c b.c eq1.h eq2.h common.h", "all", { { "a.o", "eq1.h|eq2.h common.h", KEEP_IF_SAME | HALVE, NULL }, { "b.o", "eq2.h common.h", 0, NULL }, { NULL } } },
   /* 37 */ { "dyndep_checked_in", { RULES "build out: cc in || dd\n  dyndep = dd\nbuild x: cc out.imp || out\nbuild y: cc s2\n", NULL, NULL },
             "in dd s2", "x y", { { "dd", "", 0, "ninja_dyndep_version = 1\nbuild out | out.imp: dyndep\n" }, { NULL } } },
+  /* 38 */ { "dyndep_rule_level_restat", { RULES "rule mkdd\n  command = scan $in > $out\nrule ccdd\n  command = ccdd $in -o $out\n  dyndep = dd\nbuild dd: mkdd ddsrc\nbuild out: ccdd in || dd\nbuild other: cc s2\nbuild y: cc other out\n", NULL, NULL },
+            "ddsrc in s2", "y", { { "dd", "", 0, "ninja_dyndep_version = 1\nbuild out: dyndep\n  restat = 1\n" }, { "out", "", KEEP_IF_SAME, NULL }, { NULL } } },
 };
 #ifndef SCENARIO
 #define SCENARIO 0
